@@ -30,12 +30,15 @@ def _make_kdata(c, data):
     from mrpro.data.EncodingLimits import Limits
     from mrpro.data.traj_calculators import KTrajectoryCartesian
     no, nc, n1, n0 = c['n_other'], c['n_coils'], len(c['k1']), c['n_k0']
+    n2 = c.get('n_k2', 1)
     acqs, sc = [], 0
     for o in range(no):
+      for k2 in range(n2):
         for k1 in c['k1']:
             a = ismrmrd.Acquisition()
             a.resize(n0, nc, trajectory_dimensions=2)
             a.idx.kspace_encode_step_1 = k1
+            a.idx.kspace_encode_step_2 = k2
             a.idx.repetition = o
             a.scan_counter = sc
             sc += 1
@@ -45,12 +48,12 @@ def _make_kdata(c, data):
             a.slice_dir[:] = (0, 0, 1)
             acqs.append(a)
     info = AcqInfo.from_ismrmrd_acquisitions(acqs)
-    info.apply_(lambda f: rearrange_acq_info_fields(f, '(other k2 k1) ... -> other k2 k1 ...', other=no, k2=1, k1=n1))
+    info.apply_(lambda f: rearrange_acq_info_fields(f, '(other k2 k1) ... -> other k2 k1 ...', other=no, k2=n2, k1=n1))
     ny = c['enc_y']
-    lim = EncodingLimits(k0=Limits(0, n0 - 1, n0 // 2), k1=Limits(0, ny - 1, ny // 2), k2=Limits(0, 0, 0), repetition=Limits(0, no - 1, 0))
+    lim = EncodingLimits(k0=Limits(0, n0 - 1, n0 // 2), k1=Limits(0, ny - 1, ny // 2), k2=Limits(0, n2 - 1, n2 // 2), repetition=Limits(0, no - 1, 0))
     header = KHeader(trajectory=KTrajectoryCartesian(), encoding_limits=lim,
-                     recon_matrix=SpatialDimension(1, c['recon_y'], c['recon_x']), recon_fov=SpatialDimension(0.1, 0.2, 0.3),
-                     encoding_matrix=SpatialDimension(1, ny, n0), encoding_fov=SpatialDimension(0.1, 0.2, 0.3),
+                     recon_matrix=SpatialDimension(n2, c['recon_y'], c['recon_x']), recon_fov=SpatialDimension(0.1, 0.2, 0.3),
+                     encoding_matrix=SpatialDimension(n2, ny, n0), encoding_fov=SpatialDimension(0.1, 0.2, 0.3),
                      acq_info=info, lamor_frequency_proton=1.0e8)
     traj = KTrajectoryCartesian()(header)
     return KData(header, data, traj)
@@ -80,6 +83,13 @@ def gen(rng, tier):
              'lam': rng.choice([0, 0, Fraction(1, 2), 2, Fraction(1, 4)]), 'reg_data': rng.random() < 0.5, 'reg_op': rng.random() < 0.3,
              'n_iter': rng.choice([0, 1, 2, 3]) if small else rng.randint(0, 12), 'seed': rng.randrange(10 ** 6), 'mode': mode}
         c['lam'] = [Fraction(c['lam']).numerator, Fraction(c['lam']).denominator]
+        c['n_k2'] = 1 if small or rng.random() < 0.6 else rng.choice([2, 3])
+        if c['n_k2'] > 1:
+            c['enc_y'], c['k1'], c['recon_y'] = min(ny, 4), list(range(min(ny, 4))), min(ny, 4)
+            c['n_k0'] = c['recon_x'] = min(nx, 3)
+            c['noise'] = nc > 1 and rng.random() < 0.7
+        # regularisation weight as a map with some zero entries (a mask-like prior)
+        c['lam_map'] = (not small) and c['lam'][0] != 0 and rng.random() < 0.4
         out.append(c)
     return out
 
@@ -90,18 +100,19 @@ def _setup(c):
     g = np.random.default_rng(c['seed'])
     no, nc, n1, n0 = c['n_other'], c['n_coils'], len(c['k1']), c['n_k0']
     ry, rx = c['recon_y'], c['recon_x']
-    y = (g.integers(-3, 4, (no, nc, 1, n1, n0)) + 1j * g.integers(-3, 4, (no, nc, 1, n1, n0))).astype(np.complex64)
+    n2 = c.get('n_k2', 1)
+    y = (g.integers(-3, 4, (no, nc, n2, n1, n0)) + 1j * g.integers(-3, 4, (no, nc, n2, n1, n0))).astype(np.complex64)
     kd = _make_kdata(c, torch.from_numpy(y))
     fop = FourierOp.from_kdata(kd)
     csm = None
     if c['csm']:
-        cs = (g.integers(-2, 3, (1, nc, 1, ry, rx)) + 1j * g.integers(-2, 3, (1, nc, 1, ry, rx))).astype(np.complex64) / 2
+        cs = (g.integers(-2, 3, (1, nc, n2, ry, rx)) + 1j * g.integers(-2, 3, (1, nc, n2, ry, rx))).astype(np.complex64) / 2
         cs[0, 0] += 1.5  # keep the coil combination well conditioned
         csm = CsmData(data=torch.from_numpy(cs), header=None) if False else None
         csm_t = torch.from_numpy(cs)
     else:
         csm_t = None
-    dcf_t = torch.from_numpy((g.integers(1, 5, (1, 1, n1, n0)) / 2).astype(np.float32)) if c['dcf'] else None
+    dcf_t = torch.from_numpy((g.integers(1, 5, (1, n2, n1, n0)) / 2).astype(np.float32)) if c['dcf'] else None
     noise_t = None
     if c['noise']:
         nz = (g.integers(-3, 4, (nc, 1, 1, 16)) + 1j * g.integers(-3, 4, (nc, 1, 1, 16))).astype(np.complex64)
@@ -129,25 +140,34 @@ def impl(c):
     kd, fop, csm_t, dcf_t, noise_t, g = _setup(c)
     no, nc = c['n_other'], c['n_coils']
     ry, rx = c['recon_y'], c['recon_x']
-    img_shape = [no, 1 if csm_t is not None else nc, 1, ry, rx]
+    n2 = c.get('n_k2', 1)
+    img_shape = [no, 1 if csm_t is not None else nc, n2, ry, rx]
     csm = CsmData(data=csm_t, header=_iheader(kd)) if csm_t is not None else None
     dcf = DcfData(data=dcf_t) if dcf_t is not None else None
     noise = KNoise(data=noise_t) if noise_t is not None else None
     lam = Fraction(*c['lam'])
+    lam_t = float(lam)
+    lam_vec = None
+    if c.get('lam_map'):
+        lam_map = torch.from_numpy((g.integers(0, 3, (1, 1, n2, ry, rx)) * float(lam)).astype(np.float32))
+        lam_map.view(-1)[0] = 0.0
+        lam_map.view(-1)[-1] = float(lam)
+        lam_t = lam_map
+        lam_vec = np.broadcast_to(lam_map.numpy().astype(np.float64), img_shape).reshape(-1)
     reg_data = torch.from_numpy((g.integers(-2, 3, img_shape) + 1j * g.integers(-2, 3, img_shape)).astype(np.complex64)) if c['reg_data'] else 0.0
     reg_op = None
     if c['reg_op']:
-        d = torch.from_numpy((g.integers(1, 4, (1, 1, 1, ry, rx))).astype(np.complex64))
+        d = torch.from_numpy((g.integers(1, 4, (1, 1, n2, ry, rx))).astype(np.complex64))
         reg_op = EinsumOp(d, '... , ... -> ...')
     res = {}
     # ---- the three reconstructions ----
     direct = DirectReconstruction(kdata=None, fourier_op=fop, csm=csm, noise=noise, dcf=dcf)
     res['direct'] = _c(direct(kd).data)
     reg = RegularizedIterativeSENSEReconstruction(kdata=None, fourier_op=fop, csm=csm, noise=noise, dcf=dcf, n_iterations=c['n_iter'],
-                                                  regularization_data=reg_data, regularization_weight=float(lam), regularization_op=reg_op)
+                                                  regularization_data=reg_data, regularization_weight=lam_t, regularization_op=reg_op)
     res['reg'] = _c(reg(kd).data)
     reg_conv = RegularizedIterativeSENSEReconstruction(kdata=None, fourier_op=fop, csm=csm, noise=noise, dcf=dcf, n_iterations=60,
-                                                       regularization_data=reg_data, regularization_weight=float(lam), regularization_op=reg_op)
+                                                       regularization_data=reg_data, regularization_weight=lam_t, regularization_op=reg_op)
     res['reg_conv'] = _c(reg_conv(kd).data)
     it = IterativeSENSEReconstruction(kdata=None, fourier_op=fop, csm=csm, noise=noise, dcf=dcf, n_iterations=c['n_iter'])
     res['iter'] = _c(it(kd).data)
@@ -155,22 +175,22 @@ def impl(c):
     S = SensitivityOp(csm_t) if csm_t is not None else IdentityOp()
     A = fop @ S
     Ad = _dense(A, img_shape)
-    w = np.tile(dcf_t.numpy().astype(np.float64).reshape(-1), no * nc).reshape(no, nc, -1) if dcf_t is not None else None
-    W = np.diag(np.broadcast_to(dcf_t.numpy().astype(np.float64), (no, nc, 1, len(c['k1']), c['n_k0'])).reshape(-1)) if dcf_t is not None else np.eye(Ad.shape[0])
+    W = np.diag(np.broadcast_to(dcf_t.numpy().astype(np.float64), (no, nc, n2, len(c['k1']), c['n_k0'])).reshape(-1)) if dcf_t is not None else np.eye(Ad.shape[0])
     yv = kd.data.reshape(-1).to(torch.complex128).numpy()
     if noise_t is not None:
         nz = noise_t.reshape(nc, -1).to(torch.complex128).numpy()
         cov = nz @ nz.conj().T / nz.shape[1]
         L = np.linalg.cholesky(cov)
-        yw = np.linalg.solve(L, kd.data.to(torch.complex128).numpy().reshape(no, nc, -1).transpose(1, 0, 2).reshape(nc, -1))
+        yw = np.linalg.solve(L, kd.data.to(torch.complex128).numpy().reshape(no, nc, -1).transpose(1, 0, 2).reshape(nc, -1))  # sample order (other, k2, k1, k0) kept
         yv = yw.reshape(nc, no, -1).transpose(1, 0, 2).reshape(-1)
         (wn,) = (prewhiten_kspace(_noise_as_kdata(kd, noise_t), noise).data,)
         wnz = wn.reshape(nc, -1).to(torch.complex128).numpy()
         res['white_cov_dev'] = float(np.abs(wnz @ wnz.conj().T / wnz.shape[1] - np.eye(nc)).max())
     B = np.eye(Ad.shape[1]) if reg_op is None else np.diag(np.tile(d.reshape(-1).numpy().astype(np.complex128), no * img_shape[1]))
     x0 = reg_data.reshape(-1).to(torch.complex128).numpy() if c['reg_data'] else np.zeros(Ad.shape[1])
-    H = Ad.conj().T @ W @ Ad + float(lam) * B
-    b = Ad.conj().T @ W @ yv + float(lam) * x0
+    Lm = np.diag(lam_vec) if lam_vec is not None else float(lam) * np.eye(Ad.shape[1])
+    H = Ad.conj().T @ W @ Ad + Lm @ B
+    b = Ad.conj().T @ W @ yv + Lm @ x0
     res['H'] = [[[v.real, v.imag] for v in row] for row in H.tolist()]
     res['b'] = [[v.real, v.imag] for v in b.tolist()]
     res['direct_ref'] = [[v.real, v.imag] for v in (Ad.conj().T @ W @ yv).tolist()]
@@ -181,7 +201,7 @@ def impl(c):
     res['direct_lin_dev'] = float((direct(kd3).data - (s * direct(kd).data + t * direct(kd2).data)).abs().max())
     kd4 = _make_kdata(c, 3.0 * kd.data)
     reg_h = RegularizedIterativeSENSEReconstruction(kdata=None, fourier_op=fop, csm=csm, noise=noise, dcf=dcf, n_iterations=c['n_iter'],
-                                                    regularization_data=3.0 * reg_data if c['reg_data'] else 0.0, regularization_weight=float(lam), regularization_op=reg_op)
+                                                    regularization_data=3.0 * reg_data if c['reg_data'] else 0.0, regularization_weight=lam_t, regularization_op=reg_op)
     res['homog_dev'] = float((reg_h(kd4).data - 3.0 * reg(kd).data).abs().max())
     # ---- consistent, fully sampled data reproduce the true image ----
     if c['mode'] != 'under' and c['recon_y'] <= c['enc_y'] and noise_t is None:
